@@ -22,7 +22,47 @@ def plan(tier: str, seed: int) -> List[Dict[str, Any]]:
     n_asm = 2 if tier == 'quick' else 12
     for i in range(n_asm):
         out.append({'kind': 'assembled', 'seed': seed, 'shard': i, 'shards': n_asm, 'tier': tier, 'timeout_s': 3000})
+    out.append({'kind': 'contracts-under-repo-tests', 'seed': seed, 'shard': 0, 'timeout_s': 3000})
     return out
+
+
+def shard_contracts(spec: Dict[str, Any]) -> Dict[str, Any]:
+    """second oracle (DESIGN 3.10): the repository's own test suite runs with icontract postconditions/invariants on the
+    Reader, the Writer and the bit-level devices (fjverif/contracts_plugin.py). a contract that fires is a violation; zero
+    evaluations (icontract missing, names bound before decoration) make this tier inconclusive."""
+    import json
+    import os
+    import subprocess
+
+    from fjverif.common import DEPS_DIR, PYTHON, VERIF_ROOT
+
+    out_file = engines.tmpdir() / 'contracts.json'
+    env = dict(os.environ, FJVERIF_CONTRACTS_OUT=str(out_file),
+               PYTHONPATH=os.pathsep.join([str(REPO_ROOT), str(VERIF_ROOT), str(DEPS_DIR)]))
+    proc = subprocess.run([PYTHON, '-m', 'pytest', '-q', '-p', 'no:cacheprovider', '-p', 'fjverif.contracts_plugin', '--timeout=900',
+                           '-x', '--no-header', '-o', 'cache_dir=' + str(engines.tmpdir() / 'pytest-cache')],
+                          cwd=str(REPO_ROOT), env=env, capture_output=True, timeout=2500)
+    counters: Dict[str, Any] = {}
+    violations: List[Dict[str, Any]] = []
+    inconclusive: List[str] = []
+    if out_file.exists():
+        data = json.loads(out_file.read_text())
+        counters['contract_evaluations'] = data['counts']
+        total = sum(data['counts'].values())
+        counters['monitor_evaluations'] = total
+        for broken in data['broken'][:3]:
+            violations.append({'key': f'contract/{broken["contract"]}', 'what': f'under the repository tests: {broken["detail"]}',
+                               'replay': {'kind': 'contracts', 'contract': broken['contract']}})
+        if total == 0:
+            inconclusive.append('contracts tier: no contract was evaluated (icontract missing or classes bound before decoration)')
+        elif data['exitstatus'] != 0 and not data['broken']:
+            inconclusive.append('contracts tier: the repository tests failed under the plugin without a contract firing: '
+                                + proc.stdout.decode('utf-8', 'replace')[-300:])
+    else:
+        inconclusive.append('contracts tier: the pytest run produced no report: ' + proc.stderr.decode('utf-8', 'replace')[-300:])
+    engines.cleanup_tmpdir()
+    return {'counters': counters, 'violations': violations, 'hashes': [f'contract:{k}' for k in counters.get('contract_evaluations', {})],
+            'samples': [], 'evaluations': counters.get('monitor_evaluations', 0), 'inconclusive': inconclusive}
 
 
 # ------------------------------------------------------------------------------ generation
@@ -355,6 +395,11 @@ def shard_assembled(spec: Dict[str, Any]) -> Dict[str, Any]:
 def run_shard(spec: Dict[str, Any], journal: Any) -> Dict[str, Any]:
     if spec['kind'] == 'assembled':
         return shard_assembled(spec)
+    if spec['kind'] == 'contracts-under-repo-tests':
+        return shard_contracts(spec)
+    from fjverif import contracts_plugin
+
+    contracts_on = contracts_plugin.apply()  # the generated call sequences run with the same contracts on
     rng = rng_for(spec['seed'], PROPERTY, spec['shard'])
     counters: Dict[str, Any] = {}
     violations: List[Dict[str, Any]] = []
@@ -376,6 +421,8 @@ def run_shard(spec: Dict[str, Any], journal: Any) -> Dict[str, Any]:
             samples.append({'w': case['w'], 'flaws': case['flaws'],
                             'calls': [[c[0], len(c[1])] if c[0] == 'data' else c for c in case['calls']][:8]})
     engines.cleanup_tmpdir()
+    if contracts_on:
+        counters['contract_evaluations_in_generated_workload'] = dict(contracts_plugin.COUNTS)
     return {'counters': counters, 'violations': violations, 'hashes': hashes, 'samples': samples,
             'evaluations': counters.get('monitor_evaluations', 0)}
 
@@ -396,6 +443,8 @@ def finalize(tier: str, seed: int, counters: Dict[str, Any], evaluations: int, d
         inconclusive.append(f'writer acceptance rate too low: {outcomes}')
     if not counters.get('words_compared'):
         inconclusive.append('no word was compared')
+    if not counters.get('contract_evaluations'):
+        inconclusive.append('the icontract tier (repository tests under contracts) did not report')
     if not counters.get('assembled_programs'):
         inconclusive.append('no assembled program compared across versions')
     for width in ('8', '16', '32', '64'):
